@@ -7,22 +7,22 @@ From SV Require Import Proofs.TcpSendBase Proofs.TcpSendInv Proofs.TcpSendAck Pr
                        Proofs.TcpSendTrace.
 
 Section Emitted.
-Variables (cx : ctx) (g : ghost) (s : socket) (e : bool) (s' : socket) (res : dispatch_result)
+Variables (cx : ctx) (g : ghost) (s : socket) (e : bool) (s' : socket)
           (tags : list Z) (p : packet).
 Hypothesis Hinv : inv g s.
 Hypothesis Hcx : ctx_ok cx.
-Hypothesis Hd : tcp_dispatch cx s e = Ok (s', res, tags).
-Hypothesis Hp : disp_pkt res = Some p.
+(* p is a segment dispatch handed to the device (DSent) ... *)
+Hypothesis Hd : tcp_dispatch cx s e = Ok (s', DSent p, tags).
 Let r := snd p.
 Let n := l_len (r_payload r).
-(* not a keep-alive (a keep-alive is recognisable: payload [0] at SND.NXT-1 while the keep-alive
-   timer is due; see [keep_alive_shape]) *)
-Hypothesis Hnka : ~ (exists s1, frame s s1 /\ is_keep_alive_seg s1 cx r).
+(* ... and the model did not turn it into a keep-alive: tcp_dispatch reports that decision as
+   branch tag 245 (keep-alive segments: [keep_alive_shape]) *)
+Hypothesis Hnka : ~ In 245 tags.
 
 Lemma seg_data : 0 < n \/ r_control r = CFin -> data_seg_ok cx g s p.
 Proof.
-  pose proof (dispatch_segments cx g s e s' res tags p Hinv Hcx Hd Hp) as H. cbv zeta in H.
-  destruct H as ([Hk|(H & _)] & _); [contradiction|exact H].
+  pose proof (dispatch_sent_segments cx g s e s' tags p Hinv Hcx Hd Hnka) as H. cbv zeta in H.
+  destruct H as ((H & _) & _). exact H.
 Qed.
 
 (* every data segment carries exactly the stream bytes of its sequence numbers - also when it is
@@ -76,8 +76,8 @@ Theorem syn_window_unscaled : r_control r = CSyn ->
   n = 0 /\ r_seq_number r = sq (g_iss g) /\
   r_window_len r = u16_try (rb_window (s_rx_buffer s)).
 Proof.
-  intros Hs. pose proof (dispatch_segments cx g s e s' res tags p Hinv Hcx Hd Hp) as H. cbv zeta in H.
-  destruct H as ([Hk|(_ & H & _)] & _); [contradiction|].
+  intros Hs. pose proof (dispatch_sent_segments cx g s e s' tags p Hinv Hcx Hd Hnka) as H. cbv zeta in H.
+  destruct H as ((_ & H & _) & _).
   destruct (H Hs) as (A & B & _ & C). auto.
 Qed.
 
